@@ -137,8 +137,8 @@ def run(tier):
     drift = 0
     bare_lf = []
     allfails = {}
-    for b in range(0, len(cases), 20000):
-        part = cases[b:b + 20000]
+    for b in range(0, len(cases), 6000):
+        part = cases[b:b + 6000]
         rj, fails = tlc.judge('doc', 'WrapCases', 'WrapCases.cfg', [slim(c) for c in part],
                               casefile=os.path.join(wd, 'cases.json'), timeout=3000, workers=8)
         rep.add_tlc(rj, 'WrapCases', traces=len(part))
